@@ -36,7 +36,7 @@ ASSUMPTIONS = [
     "theorems speak about batches whose commit did not fail; entries of a failed commit may be partially visible (C15)",
 ]
 
-MIX = [("c05", 2400), ("mixed", 1000), ("fail", 400), ("small", 200), ("dup", 400), ("shim", 120)]
+MIX = [("c05", 2400), ("mixed", 1000), ("fail", 400), ("small", 200), ("dup", 400), ("shim", 120), ("early", 150)]
 
 
 def explore(ctx):
